@@ -211,6 +211,8 @@ impl Run {
       }
     }
     let dir = format!("{}/replays/{}", root(), self.prop);
+    // replays of earlier runs are dropped: the directory shows this run only
+    let _ = std::fs::remove_dir_all(&dir);
     let mut shown = 0;
     // triage aid: all keys with occurrence counts and one description each
     if let Ok(path) = std::env::var("VERIF_KEYS_OUT") {
